@@ -11,33 +11,190 @@ import upp
 ID = "C05"
 GEN = []
 CORR_NAME = "tt-verdict"
-RULE = ""
-ASSUMPTIONS = []
-MODELLED = []
-BUDGET_S = {"quick": 40, "thorough": 300}
+RULE = ("one case = a generated temporal problem (ttlib.TGen: fluents p, q : bool, r(T) : bool, n : int[0,6], m : int, u : bool "
+        "sometimes undefined; 0-2 instantaneous and 1-3 durative actions with 0-1 parameter; fixed / interval durations with every "
+        "combination of open and closed ends, 12% with an upper bound reading a fluent; conditions at start, at end, over "
+        "start..end with every openness, and over intermediate intervals with delays; effects at start / end / with delays "
+        "(assign, increase, decrease, conditional, forall, Boolean delete+add pairs, same-value double assignments, accumulating "
+        "increases); 0-2 timed effects; 0-2 timed goals (point, closed/open, up to the global end); 30% with a state invariant) "
+        "re-read from the REAL problem, and a time-triggered plan of 1-4 entries on a coarse time grid (0, 1/2, 1, … 4: starts, "
+        "ends and delayed happenings coincide often) whose durations hit the ends of the duration interval exactly (whatever "
+        "their openness), lie inside or just outside; 70% of the plans are searched for with the real validator (<= 10 tries) so "
+        "that about a third of the cases are VALID and the rest near misses. Compared with the model: status, failure reason, "
+        "position of the reported inapplicable action. Non-trivial = some happening coincides with another happening or with an "
+        "end of a condition interval, or some interval / duration bound is open.")
+ASSUMPTIONS = [
+    "the validator's supported kind: condition intervals with exactly one delayed end are EXTERNAL_CONDITIONS_AND_EFFECTS for the "
+    "kind computation and not generated; delays keep every effect and condition inside [start, end] of its action (durations >= 1)",
+    "the domain of the reference semantics (Spec.Temporal.Admissible, decidable): nothing scheduled before the start of its action "
+    "instance or before time 0, conditions over non-empty intervals; the oracle raises OutOfDomain otherwise and the case is not judged",
+    "two assignments of one ground fluent by two DIFFERENT action instances at one instant are a conflict whatever the values (the "
+    "validator's rule, adopted by the reference semantics: 'applied together without conflicting assignments'); all timed effects of "
+    "one instant count as one instance",
+    "state invariants (Always bodies, bounded types) must hold in the state in force at every time point from 0 on, the state after the "
+    "last happening included",
+    "no quality metrics, simulated effects, interpreted functions, continuous effects (unsupported by the validator), quantified "
+    "conditions (forall effects are generated); divisors do not occur",
+    "instantaneous action instances are grounded by GrounderHelper (documented contract, as in C01/C04)",
+]
+MODELLED = [
+    "modelled by hand (tied by correspondence): TimeTriggeredPlanValidator._validate / _apply_effects / _apply_effect / "
+    "_states_in_interval / _check_condition / _instantiate_timing / _instantiate_interval / _ground_expression (Core/TT.lean) on top of "
+    "C01's model of evaluation, grounding and effect expansion (Core/Eval.lean, Core/Sim.lean)",
+    "heapq is modelled as 'pop the least (time, id)' over a list kept in push order; dict as an insertion-ordered association list",
+    "the grounder's simplifier is a parameter of the theorems (C11's model in the driver)",
+    "not modelled: quality metrics, simulated effects, continuous effects",
+]
+BUDGET_S = {"quick": 45, "thorough": 400}
+SEARCH_S = {"quick": 40, "thorough": 200}
 
 
 def cases(rng, tier):
-    n = 300 if tier == "quick" else 6000
+    n = 220 if tier == "quick" else 5000
     for _ in range(n):
         yield ttlib.make_case_c05(rng)
 
 
+_cache = {}
+
+
+def _run(payload):
+    k = sexp.dumps(payload)
+    if k not in _cache:
+        if len(_cache) > 3000:
+            _cache.clear()
+        b = ttlib.build(payload[1], payload[2])
+        _cache[k] = (ttlib.run_tt(b, payload[3][1:]), b)
+    return _cache[k]
+
+
 def impl(payload):
-    b = ttlib.build(payload[1], payload[2])
-    return ttlib.run_tt(b, payload[3][1:])
+    return _run(payload)[0]
+
+
+def _times(payload):
+    """(happening times with multiplicity, interval ends, any open flag)"""
+    temporal, plan = payload[2], payload[3][1:]
+    das = {d[1]: d for d in ttlib.tsec(temporal, "dactions")}
+    hap, ends, opened = [], [], False
+    for te in ttlib.tsec(temporal, "teff"):
+        hap.append(Fraction(te[0][1]))
+    for tg in ttlib.tsec(temporal, "tgoal"):
+        ends.append(Fraction(tg[0][0][1]))
+        if tg[0][1][0] == "GS":
+            ends.append(Fraction(tg[0][1][1]))
+        opened = opened or tg[0][2] == "T" or tg[0][3] == "T"
+    for st, name, args, du in plan:
+        s = Fraction(st)
+        if name in das:
+            d = das[name]
+            dur = Fraction(du) if du != "-" else Fraction(0)
+            opened = opened or d[3][3] == "T" or d[3][4] == "T"
+            for te in d[5][1:]:
+                hap.append(s + (dur if te[0][0] == "E" else 0) + Fraction(te[0][1]))
+            for c in d[4][1:]:
+                for t in (c[0][0], c[0][1]):
+                    ends.append(s + (dur if t[0] == "E" else 0) + Fraction(t[1]))
+                opened = opened or c[0][2] == "T" or c[0][3] == "T"
+        else:
+            hap.append(s)
+            ends.append(s)
+    return hap, ends, opened
 
 
 def nontrivial(payload, ans):
-    return True
+    hap, ends, opened = _times(payload)
+    return opened or len(set(hap)) < len(hap) or bool(set(hap) & set(ends))
 
 
 def stats(payload, ans):
-    return [ans if isinstance(ans, str) else "-".join(ans[:2])]
+    hap, ends, opened = _times(payload)
+    out = [ans if isinstance(ans, str) else "-".join(ans[:2]), "len:%d" % len(payload[3][1:])]
+    if len(set(hap)) < len(hap):
+        out.append("coinciding-happenings")
+    if set(hap) & set(ends):
+        out.append("happening-at-an-interval-end")
+    if opened:
+        out.append("open-bound")
+    if ttlib.tsec(payload[2], "teff"):
+        out.append("timed-effects")
+    if ttlib.tsec(payload[2], "tgoal"):
+        out.append("timed-goals")
+    return out
 
 
 def oracle(payload):
+    """the property itself on the REAL code: the validator returns VALID iff the plan is valid in the reference temporal
+    semantics (ttlib.spec_valid: an independent, interval/set-based implementation written from the property text)"""
+    v, b = _run(payload)
+    if isinstance(v, list) and v[0] == "raise":
+        return f"validation raised {v[1]}"
+    try:
+        want = ttlib.spec_valid(b, payload[3][1:])
+    except ttlib.OutOfDomain:
+        return None
+    got = v == "valid"
+    if got != want:
+        return (f"the validator says {'VALID' if got else 'INVALID'}, the reference temporal semantics says "
+                f"{'VALID' if want else 'INVALID'}")
     return None
 
 
-MANIFEST = {"level_text": "", "level_note": "", "technique": "", "design_ref": "DESIGN.md §5 C05"}
+def shrink(payload):
+    ps, temporal, plan = payload[1], payload[2], payload[3][1:]
+    for i in range(len(plan)):
+        if len(plan) > 1:
+            yield ["c05", ps, temporal, ["plan"] + plan[:i] + plan[i + 1:]]
+    used = {p[1] for p in plan}
+    das = ttlib.tsec(temporal, "dactions")
+    teff, tgoal = ttlib.tsec(temporal, "teff"), ttlib.tsec(temporal, "tgoal")
+
+    def T(d, te, tg):
+        return ["temporal", ["dactions"] + d, ["teff"] + te, ["tgoal"] + tg]
+    for i, d in enumerate(das):
+        if d[1] not in used:
+            yield ["c05", ps, T(das[:i] + das[i + 1:], teff, tgoal), payload[3]]
+    for i in range(len(teff)):
+        yield ["c05", ps, T(das, teff[:i] + teff[i + 1:], tgoal), payload[3]]
+    for i in range(len(tgoal)):
+        yield ["c05", ps, T(das, teff, tgoal[:i] + tgoal[i + 1:]), payload[3]]
+    for i, d in enumerate(das):
+        conds, effs = d[4][1:], d[5][1:]
+        for j in range(len(conds)):
+            d2 = d[:4] + [["conds"] + conds[:j] + conds[j + 1:], d[5]]
+            yield ["c05", ps, T(das[:i] + [d2] + das[i + 1:], teff, tgoal), payload[3]]
+        for j in range(len(effs)):
+            if len(effs) > 1:
+                d2 = d[:5] + [["effs"] + effs[:j] + effs[j + 1:]]
+                yield ["c05", ps, T(das[:i] + [d2] + das[i + 1:], teff, tgoal), payload[3]]
+    for name in ("goals", "traj"):
+        items = upp.get(ps, name)
+        for i in range(len(items)):
+            ps2 = [([name] + items[:i] + items[i + 1:]) if (isinstance(s, list) and s and s[0] == name) else s for s in ps]
+            yield ["c05", ps2, temporal, payload[3]]
+
+
+MANIFEST = {
+    "level_text": ("Lean 4 theorems (Props/C05.lean) prove for every temporal problem in the modelled kind, every simplifier and every "
+                   "admissible time-triggered plan, with no size bound: the model of TimeTriggeredPlanValidator returns VALID iff the "
+                   "plan is valid in a declarative reference semantics (Spec/Temporal.lean: events and conditions of the plan; the "
+                   "distinct event times in ascending order; all events of one instant applied together — effect instances "
+                   "evaluated in the state before the instant, consistent as in C01 and no fluent assigned by two action instances, "
+                   "order-free new values; every condition true in the state in force at EVERY time point of its possibly open "
+                   "interval, the state in force at an instant being the one before its effects; duration constraints; goals in the "
+                   "last state), as an equality of results in both directions. Named lemmas per clause: _states_in_interval yields "
+                   "exactly the states in force at the time points of the interval (whatever the right end's openness), the meaning "
+                   "of the duration constraint, _apply_effects = the order-free successor of the instant, independence of the "
+                   "listing order of the plan, and the loop's fuel always suffices. The model (Core/TT.lean) mirrors the repaired "
+                   "plan_validator.py function by function and is tied to /repo on every run by a differential check (status, "
+                   "reason, reported action) on generated temporal problems and plans with coinciding happenings and open/closed "
+                   "ends, plus an independent Python implementation of the reference semantics as the property's oracle."),
+    "level_note": ("Partial with respect to the validator's full kind: simulated effects, quality metrics and continuous effects "
+                   "are not modelled. Admissible plans only (decidable: nothing scheduled before the start of its action or before "
+                   "time 0; non-empty condition intervals). The cross-instance conflict rule is the validator's (any two assignments "
+                   "of one fluent by different instances at one instant conflict). Trusted: Lean kernel; axioms propext, "
+                   "Classical.choice, Quot.sound; the correspondence harness; Spec/Temporal.lean as the reading of the property. "
+                   "Modelled not verified: heapq, dict, Fraction."),
+    "technique": "Lean 4 proof (loop lemma over the event list, merge lemma via C01's fold, interval lemma over dense time) + model/code correspondence",
+    "design_ref": "DESIGN.md §5 C05",
+}
